@@ -17,3 +17,17 @@ Lemma beq_neq a b : a <> b -> beq a b = false.
 Proof. destruct (beq_spec a b); congruence. Qed.
 Lemma beq_sym a b : beq a b = beq b a.
 Proof. destruct (beq_spec a b), (beq_spec b a); congruence. Qed.
+
+Lemma strip_prefix_spec p s r : strip_prefix p s = Some r -> s = p ++ r.
+Proof.
+  unfold strip_prefix. destruct (is_prefix p s) eqn:E; [|discriminate]. intros H. injection H as <-.
+  revert s E. induction p as [|x p IH]; intros s E; [reflexivity|]. destruct s as [|y s]; [discriminate|].
+  cbn [is_prefix] in E. apply andb_prop in E. destruct E as [E1 E2]. apply N.eqb_eq in E1. subst y.
+  cbn [length skipn app]. f_equal. apply IH. exact E2.
+Qed.
+Lemma strip_suffix_spec x s r : strip_suffix x s = Some r -> s = r ++ x.
+Proof.
+  unfold strip_suffix. destruct (strip_prefix (rev x) (rev s)) as [q|] eqn:E; [|discriminate]. intros H. injection H as <-.
+  apply strip_prefix_spec in E. apply (f_equal (@rev N)) in E. rewrite rev_involutive, rev_app_distr, rev_involutive in E. exact E.
+Qed.
+
